@@ -1,5 +1,6 @@
 use crate::evidence::{Report, Tier};
 
+pub mod atomic;
 pub mod bitreader;
 pub mod common;
 pub mod dequant;
@@ -25,6 +26,7 @@ pub fn run(id: &str, tier: Tier) -> Option<Report> {
         "C04" => refgraph::run(tier),
         "C15" => stream::run(tier),
         "C13" => pipeline::run(tier),
+        "C05" => atomic::run(tier),
         "C07" => yuv::run_c07(tier),
         "C08" => yuv::run_c08(tier),
         _ => return None,
@@ -55,6 +57,7 @@ pub fn replay_file(path: &str) -> i32 {
     let case = &doc["case"];
     match case["kind"].as_str().unwrap_or("") {
         "yuv" => yuv::replay(case),
+        "split" => atomic::replay(case),
         "stream" => stream::replay(case),
         "decode" => common::replay_decode(case),
         "deblock" => deblock::replay(case),
